@@ -8,7 +8,7 @@
 //!     //@AT <anchor>            following lines (until the next //@ directive) are spliced at the anchor
 //!     //@LOOP <k>               following lines are the loop annotations (invariant/decreases) of loop k
 //!     //@END                    end of the function block
-//! Anchors: entry | exit | preloop:<k> (before the header of loop k) | before:[<match arm pattern>]<call>#<k> (ordinal counted inside that arm only) | before:<call>#<k> | after:<call>#<k> | ret#<k> | loophead:<k> | loopend:<k>
+//! Anchors: entry | exit | preloop:<k> (before the header of loop k) | postloop:<k> (after its closing brace) | before:[<match arm pattern>]<call>#<k> (ordinal counted inside that arm only) | before:<call>#<k> | after:<call>#<k> | ret#<k> | loophead:<k> | loopend:<k>
 //!   <call> is the name of a translated call (h.set_left -> set_left, rotate_left, ...), <k> its ordinal in
 //!   source order within the function.  An anchor that no longer exists is a lost anchor (never an alarm).
 //!
@@ -256,6 +256,7 @@ impl<'a> Tx<'a> {
                 let op = crate::emit::toks(&b.op);
                 format!("({} {} {})", self.expr(&b.left), op, self.expr(&b.right))
             }
+            syn::Expr::Field(fe) if self.ops && toks(&fe.member) == "0" && toks(&*fe.base).replace(' ', "") == "iter.size_hint()" => "size_hint_lo(&iter)".to_string(),
             syn::Expr::Field(fe) if self.ops && self.f.owner == "NodeIter" && matches!(&*fe.base, syn::Expr::Path(pp) if pp.path.is_ident("self")) => {
                 // R41: the iterator object is an ordinary struct of the arena program
                 format!("self.{}", toks(&fe.member))
@@ -481,6 +482,13 @@ impl<'a> Tx<'a> {
                 }
                 return format!("treebin_drop(h, {})", a);
             }
+            "HashMap::with_capacity_and_hasher" | "Self::with_capacity_and_hasher" if self.ops => {
+                // R72: a freshly constructed map: map_with_capacity(h, n)
+                let n = self.expr(&c.args[0]);
+                let n = self.hoist(n);
+                return format!("map_with_capacity(h, {})", n);
+            }
+            "Self::default" if self.ops => return "map_default(h)".into(),
             "num_cpus" if self.ops => return "num_cpus()".into(), // R64: the number of CPUs is an arbitrary positive number (external)
             "Guard::unprotected" => return "()".into(),
             "std::thread::yield_now" | "thread::yield_now" if self.ops => return "()".into(), // R63: a scheduling hint has no arena counterpart
@@ -711,6 +719,8 @@ impl<'a> Tx<'a> {
                 format!("table_find({})", all.join(", "))
             }
             "iter" if self.ops && toks(&*m.receiver) == "self" => "iter_new(h, this)".to_string(),
+            "next" if self.ops && toks(&*m.receiver).replace(' ', "") == "self.node_iter" => "node_iter_next(h, this)".to_string(), // R70: the wrapped traverser
+            "next_internal" if self.ops && toks(&*m.receiver) == "self" => "iter_next_internal(h, this)".to_string(),
             "next_internal" if self.ops => format!("iter_next(h, &mut {})", self.expr(&m.receiver)),
             "before" | "after" if self.ops => format!("{}.{}()", self.expr(&m.receiver), name),
             "replace_node" | "put" | "insert" | "try_insert" if self.ops && toks(&*m.receiver) == "self" => {
@@ -761,7 +771,7 @@ impl<'a> Tx<'a> {
                     if body == v {
                         return self.expr(&m.receiver); // R37: a re-borrow of the same value
                     }
-                    if self.wrap {
+                    if self.wrap || toks(&*m.receiver).replace(' ', "") == "self.next_internal()" {
                         // R45 (WRAP): Option::map with an irrefutable pattern
                         let x = self.expr(&m.receiver);
                         let x = self.hoist(x);
@@ -813,7 +823,8 @@ impl<'a> Tx<'a> {
                 let args: Vec<String> = m.args.iter().filter(|a| !is_drop_arg(a)).map(|a| self.expr(a)).collect();
                 let mut all = vec!["h".to_string(), "this".to_string()];
                 all.extend(args);
-                format!("{}({})", name, all.join(", "))
+                // `reserve` is also a common local name (Extend::extend): the arena function is map_reserve
+                format!("{}({})", if name == "reserve" { "map_reserve" } else { name.as_str() }, all.join(", "))
             }
             "len" if self.self_ptr && m.args.is_empty() => {
                 let r = self.expr(&m.receiver);
@@ -843,6 +854,21 @@ impl<'a> Tx<'a> {
                 format!("h.{}_{}(this, {})", name, f, v)
             }
             "abs" if self.ops => format!("iabs({})", self.expr(&m.receiver)),
+            // R71 (bulk paths): iterators and freshly constructed maps
+            "into_iter" if self.ops && matches!(&*m.receiver, syn::Expr::Path(pp) if pp.path.get_ident().map(|i| i == "iter").unwrap_or(false)) => "iter".to_string(),
+            "next" if self.ops && matches!(&*m.receiver, syn::Expr::Path(pp) if pp.path.get_ident().map(|i| i == "iter").unwrap_or(false)) => "iter_next(h, &mut iter)".to_string(),
+            "enter" | "guard" if self.ops && m.args.is_empty() && !self.wrap => "()".to_string(),
+            "with_collector" if self.ops => self.expr(&m.receiver),
+            "saturating_add" if self.ops => format!("sat_add({}, {})", self.expr(&m.receiver), self.expr(&m.args[0])),
+            "put" | "put_all" | "insert" if self.ops && !self.wrap && matches!(strip_parens(&m.receiver), syn::Expr::Path(pp) if pp.path.get_ident().map(|i| i != "self").unwrap_or(false)) || (self.ops && !self.wrap && name == "put_all") => {
+                let recv = match strip_parens(&m.receiver) { syn::Expr::Path(pp) if pp.path.is_ident("self") => "this".to_string(), syn::Expr::Unary(u) if toks(&*u.expr) == "self" => "this".to_string(), other => self.expr(other) };
+                let mut all = vec!["h".to_string(), recv];
+                for a in m.args.iter().filter(|a| !is_drop_arg(a)) {
+                    let v = self.expr(a);
+                    all.push(self.hoist(v));
+                }
+                format!("{}({})", name, all.join(", "))
+            }
             "map_or" if self.ops && m.args.len() == 2 && matches!(&m.args[1], syn::Expr::Closure(_)) => {
                 // R66: X.map_or(d, |v| B)  ->  match X { Some(v) => B, None => d }
                 if let syn::Expr::Closure(cl) = &m.args[1] {
@@ -1064,6 +1090,12 @@ impl<'a> Tx<'a> {
             }
             syn::Stmt::Local(l) if self.self_ptr && l.init.as_ref().map(|i| toks(&*i.expr).contains("Guard::unprotected")).unwrap_or(false) => {
                 // R24: the unprotected guard of teardown code has no arena counterpart
+            }
+            syn::Stmt::Local(l) if self.ops && l.init.as_ref().map(|i| toks(&*i.expr).replace(' ', "") == "iter.size_hint()").unwrap_or(false) => {
+                // R73: let (lower, _) = iter.size_hint();
+                let pat = toks(&l.pat).replace(' ', "");
+                let lower = pat.trim_start_matches('(').split(',').next().unwrap_or("lower").to_string();
+                self.push(ind, format!("let {} = size_hint_lo(&iter);", lower), ln, true);
             }
             syn::Stmt::Local(l) if self.ops && matches!(l.init.as_ref().map(|i| &*i.expr), Some(syn::Expr::Try(_))) && matches!(&l.pat, syn::Pat::Ident(_)) => {
                 // R60: let x = E?;  in a function returning Option: None is passed on
@@ -1662,6 +1694,14 @@ pub struct ArenaOut {
     pub extracted: Vec<serde_json::Value>,
 }
 
+fn strip_parens(e: &syn::Expr) -> &syn::Expr {
+    match e {
+        syn::Expr::Paren(p) => strip_parens(&p.expr),
+        syn::Expr::Group(g) => strip_parens(&g.expr),
+        other => other,
+    }
+}
+
 /// does this loop body contain a `break <value>` of its own (not of a nested loop or closure)?
 fn own_break_value(b: &syn::Block) -> bool {
     struct V(bool);
@@ -1934,6 +1974,18 @@ pub fn generate(idx: &SrcIndex, template: &str) -> ArenaOut {
                                 } else {
                                     errors.push(format!("lost anchor: {} in {} is not on a simple statement", ak, key));
                                 }
+                            }
+                        }
+                    }
+                    // postloop:<k>: right after the closing brace of loop k
+                    for (li, l) in tx.lines.iter().enumerate() {
+                        if let Some(k) = l.marker.as_ref().and_then(|m| m.strip_prefix("loopend:")) {
+                            let pk = format!("postloop:{}", k);
+                            if let Some(v) = at.get(&pk) {
+                                let mut ci = li;
+                                while ci + 1 < tx.lines.len() && !(tx.lines[ci].marker.is_none() && tx.lines[ci].text == "}") { ci += 1; }
+                                after.entry(ci).or_default().extend(v.iter().cloned());
+                                used.push(pk);
                             }
                         }
                     }
